@@ -23,11 +23,12 @@ RULE = ("(a) exhaustive box: every (max1,max2,P) with max1,max2<=N, P<=Pmax (qui
         "50*(P+max1+max2)+1000; (b) seeded random triples up to 1e4 biased to highly composite numbers, primes and products just "
         "above max1*max2; (c) compute_2d_process_grid(npts,P) vs. brute force on npts; (d) the three standard layouts "
         "built on the chosen grid under simulated MPI, all ranks own >=1 point per distributed dimension, all ordered "
-        "layout pairs transposed with a unique-id field.  A class is (valid-set size 0/1/many, P prime/composite/1, "
+        "layout pairs transposed with a unique-id field; (e) the real setupCylindricalGrid on 2-7 simulated ranks with and without "
+        "a plot-only rank: the chosen grid multiplies to the number of ranks sharing the layouts on every rank.  A class is (valid-set size 0/1/many, P prime/composite/1, "
         "outcome error/grid, which bound binds); distinct_nontrivial counts classes in which the oracle compared.")
 ASSUMPTIONS = ["simulated MPI layer (threads as ranks) is faithful for Create_cart/Sub/Alltoall (self-tested)",
                "exhaustive only inside the stated box; beyond it seeded random sampling"]
-REQUIRED_EVENTS = {"grid_returned": 1, "error_raised": 1, "layout_worlds": 1}
+REQUIRED_EVENTS = {"grid_returned": 1, "error_raised": 1, "layout_worlds": 1, "setup_worlds": 1}
 
 
 def _valid_set(m1, m2, P):
@@ -92,6 +93,8 @@ def gen_cases(tier, seed):
     nl = 40 if tier == "quick" else 400
     for k in range(nl):
         cases.append({"kind": "layouts", "seed": seed * 7919 + k, "Pmax": 12 if tier == "quick" else 24, "cost": 8})
+    for k in range(10 if tier == "quick" else 100):
+        cases.append({"kind": "setup", "seed": seed * 6151 + k, "P": [2, 3, 4, 5, 6, 7][k % 6], "plot": bool(k % 2), "cost": 30})
     return cases
 
 
@@ -171,6 +174,8 @@ def run_case(case):
         return result(HELD, cls=sorted(classes), events=events, n_eval=n_eval)
     if case["kind"] == "layouts":
         return _layouts_case(case, pg)
+    if case["kind"] == "setup":
+        return _setup_case(case, pg)
     return result(INCO, what="unknown case kind")
 
 
@@ -235,3 +240,63 @@ def _layouts_case(case, pg):
         return result(VIOL, cls=[cls], events=ev, key=key or "C20:layouts-wrong",
                       what=bad[0], witness={"npts": npts, "P": P, "nprocs": nprocs, "msgs": bad[:5]})
     return result(HELD, cls=[cls], events=ev, sched=str(hash(w.arrival_signature())))
+
+
+def _setup_case(case, pg):
+    """the real set-up function (incl. the rarely used plot-only rank): the grid it chooses must multiply to the number of
+    ranks that share the layouts on EVERY rank, and the standard layouts must build and connect"""
+    import json
+    import os
+    import shutil
+    import tempfile
+    from mpi4py import MPI
+    from pygyro.initialisation import setups
+    from vlib import driver_run as dr
+    rng = random.Random(case["seed"])
+    P, plot = case["P"], case["plot"]
+    nwork = P - 1 if plot else P
+    for _try in range(100):
+        npts = [rng.randint(6, 10), rng.randint(6, 9), rng.randint(7, 10), rng.randint(6, 10)]
+        if _valid_set(min(npts[0], npts[3]), min(npts[2], npts[3]), nwork):
+            break
+    else:
+        return result(SKIP, what="no admissible grid")
+    draw = rng.randrange(P)
+    tmp = tempfile.mkdtemp(prefix="verif_c20_")
+    try:
+        cfile = os.path.join(tmp, "c.json")
+        dr.write_constants(cfile, npts, dt=2)
+
+        def prog(rank):
+            comm = MPI.COMM_WORLD
+            kw = dict(plotThread=True, drawRank=draw) if plot else {}
+            grid, c, t = setups.setupCylindricalGrid('v_parallel', constantFile=cfile, comm=comm, allocateSaveMemory=True, **kw)
+            lm = grid._layout_manager
+            out = {"nprocs": [int(x) for x in lm.nProcs], "empty": grid.getAllData().size == 0, "shapes": {}}
+            for lay_ in ('flux_surface', 'poloidal', 'v_parallel'):
+                grid.setLayout(lay_)
+                out["shapes"][lay_] = [int(x) for x in grid.getLayout(lay_).shape]
+            return out
+        w = MPI.run_world(P, prog, schedule="random", seed=case["seed"], timeout=300)
+    finally:
+        shutil.rmtree(tmp, ignore_errors=True)
+    ev = dict(w.events)
+    ev["layout_worlds"] = 1
+    ev["setup_worlds"] = 1
+    cls = ["setup/P%d/%s" % (P, "plot-rank" if plot else "all-workers")]
+    wit = {"case": case, "npts": npts, "draw": draw}
+    err = w.first_error()
+    if err is not None:
+        wit["traceback"] = (w.tracebacks[err[0]] or "")[-2500:]
+        return result(VIOL, cls=cls, events=ev, key="C20:setup-exception:%s" % type(err[1]).__name__,
+                      what="setupCylindricalGrid(plotThread=%r, drawRank=%d) on %d ranks, npts=%r: rank %d raised %r" % (plot, draw, P, npts, err[0], err[1]), witness=wit)
+    for r, o in enumerate(w.results):
+        share = 1 if (plot and r == draw) else nwork
+        if int(np.prod(o["nprocs"])) != share:
+            return result(VIOL, cls=cls, events=ev, key="C20:setup-grid-does-not-multiply-to-process-count",
+                          what="rank %d: chosen process grid %r does not multiply to the %d rank(s) sharing the layouts" % (r, o["nprocs"], share), witness=wit)
+        if not (plot and r == draw):
+            for lay_, shp in o["shapes"].items():
+                if min(shp[:2]) < 1:
+                    return result(VIOL, cls=cls, events=ev, key="C20:setup-empty-block", what="rank %d owns an empty block %r in layout %s" % (r, shp, lay_), witness=wit)
+    return result(HELD, cls=cls, events=ev, sched=str(hash(w.arrival_signature())))
